@@ -1,10 +1,42 @@
 (* Tie B for C20: whole runs of PulseCoupledOscillator against Model/Pulse.v over Model/Kernel.v.
    The oracle holds the values of the numeric maps recomputed by the harness from the recorded
    arguments; the model recomputes the arguments exactly and both are compared. *)
-From Coq Require Import List ZArith QArith Qabs Bool Arith.
+From Coq Require Import List ZArith QArith Qabs Bool Arith Floats String Ascii.
 From EpyV Require Import Lib.Prelude Model.Kernel Model.Pulse Tie.Kernel.
 Import ListNotations.
 Open Scope Q_scope.
+
+(* Cases carry binary64 values as primitive float literals written from float.hex() (they parse an
+   order of magnitude faster than Q literals); fq is their exact rational value. *)
+Definition fq (f : float) : Q :=
+  match Prim2SF f with
+  | S754_finite s m e =>
+      let z := if s then Zneg m else Zpos m in
+      match e with
+      | Z0 => z # 1
+      | Zpos p => (z * Z.pow_pos 2 p) # 1
+      | Zneg p => z # (Pos.pow 2 p)
+      end
+  | _ => 0
+  end.
+
+Definition kind_of (a : ascii) : rkind :=
+  if Ascii.eqb a "N" then RN else if Ascii.eqb a "T" then RT else if Ascii.eqb a "S" then RS
+  else if Ascii.eqb a "G" then RG else RR.
+Fixpoint kinds_of (s : string) : list rkind :=
+  match s with EmptyString => [] | String a s' => kind_of a :: kinds_of s' end.
+
+(* as written by the harness *)
+Record fcase_t := {
+  f_cfg : pcfg; f_sync : bool;
+  f_kinds : list string;                (* one letter per numeric call, in call order (chunked) *)
+  f_answers : list float;               (* the value of each call, recomputed by the harness from its argument *)
+  f_args : list float;                  (* the argument the implementation passed *)
+  f_orders : list (list Z);
+  f_snaps : list (nat * option float);
+  f_taps : list (float * Z);
+  f_ftimes : list float; f_fnodes : list Z; f_phases : list float;
+  f_time : float; f_events : nat; f_ok : bool }.
 
 Record case_t := {
   c_cfg : pcfg; c_sync : bool;
@@ -17,6 +49,18 @@ Record case_t := {
   o_ftimes : list Q; o_fnodes : list Z; o_phases : list Q;   (* results *)
   o_time : Q; o_events : nat; o_ok : bool }.
 
+Definition of_fcase (f : fcase_t) : case_t :=
+  let ks := flat_map kinds_of (f_kinds f) in
+  {| c_cfg := f_cfg f; c_sync := f_sync f;
+     c_oracle := combine ks (map fq (f_answers f));
+     c_orders := f_orders f;
+     o_args := combine ks (map fq (f_args f));
+     o_snaps := map (fun p => (fst p, option_map fq (snd p))) (f_snaps f);
+     o_taps := map (fun p => (fq (fst p), snd p)) (f_taps f);
+     o_ftimes := map fq (f_ftimes f); o_fnodes := f_fnodes f; o_phases := map fq (f_phases f);
+     o_time := fq (f_time f); o_events := f_events f;
+     o_ok := f_ok f && Nat.eqb (List.length ks) (List.length (f_answers f)) && Nat.eqb (List.length ks) (List.length (f_args f)) |}.
+
 Definition model_run (c : case_t) : result pworld :=
   let tb := pulse_table (c_cfg c) (c_oracle c) (c_orders c) in
   if c_sync c then sync_run tb 4000 4000 [] [] else stoch_run tb 4000 4000 [] [] [].
@@ -26,9 +70,9 @@ Definition queries_of (o : list obs) : list (nat * option Q) :=
 Definition taps_of (o : list obs) : list (Q * Z) :=
   flat_map (fun x => match x with OTap t 0%nat (NPost 0%nat) (EN n) => [(t, n)] | _ => [] end) o.
 Definition all_taps (o : list obs) : nat :=
-  length (filter (fun x => match x with OTap _ _ _ _ => true | _ => false end) o).
+  List.length (filter (fun x => match x with OTap _ _ _ _ => true | _ => false end) o).
 Definition errors_of (o : list obs) : nat :=
-  length (filter (fun x => match x with OValueError => true | OUnpost _ None => true | OQuery _ None => true | _ => false end) o).
+  List.length (filter (fun x => match x with OValueError => true | OUnpost _ None => true | OQuery _ None => true | _ => false end) o).
 
 (* arguments agree up to 1e-9 (absolute below 1, relative above) *)
 Definition arg_approx (a b : Q) : bool :=
@@ -42,7 +86,7 @@ Definition tap_eqb (a b : Q * Z) : bool := qapprox (fst a) (fst b) && Z.eqb (snd
 Definition node_ok (s : st pworld) (n : Z) : bool :=
   match ev_of (world s) n with
   | Some (k, T) =>
-      (k <? length (ids s))%nat &&
+      (k <? List.length (ids s))%nat &&
       match filter (fun x => e_live x && elem_eqb (e_elem x) (EN n)) (queue s) with
       | [x] => Nat.eqb (e_id x) (nth k (ids s) 0%nat) && Qeq_bool (e_time x) T
       | _ => false
@@ -51,25 +95,27 @@ Definition node_ok (s : st pworld) (n : Z) : bool :=
   end.
 Definition inv_b (cfg : pcfg) (s : st pworld) : bool :=
   forallb (node_ok s) (pc_nodes cfg)
-  && Nat.eqb (length (filter e_live (queue s))) (length (pc_nodes cfg))
-  && Nat.eqb (length (ids s)) (pw_nposted (world s)).
+  && Nat.eqb (List.length (filter e_live (queue s))) (List.length (pc_nodes cfg))
+  && Nat.eqb (List.length (ids s)) (pw_nposted (world s)).
 
 Definition check_case (c : case_t) : bool :=
   let r := model_run c in
   let s := r_final r in
   let '(phis, w) := final_phases (c_cfg c) (clock s) (world s) in
   o_ok c && negb (r_stuck r) && negb (pw_bad w)
-  && Nat.eqb (length (pw_oracle w)) 0 && Nat.eqb (length (pw_orders w)) 0
+  && Nat.eqb (List.length (pw_oracle w)) 0 && Nat.eqb (List.length (pw_orders w)) 0
   && Nat.eqb (errors_of (r_out r)) 0
   && list_eqb arg_eqb (map (fun q => (rq_kind q, rq_arg q)) (rev (pw_reqs w))) (o_args c)
   && list_eqb snap_eqb (queries_of (r_out r)) (o_snaps c)
   && list_eqb tap_eqb (taps_of (r_out r)) (o_taps c)
-  && Nat.eqb (all_taps (r_out r)) (length (o_taps c))
+  && Nat.eqb (all_taps (r_out r)) (List.length (o_taps c))
   && list_eqb qapprox (rev (pw_ftimes w)) (o_ftimes c)
   && list_eqb Z.eqb (rev (pw_fnodes w)) (o_fnodes c)
   && list_eqb Qeq_bool phis (o_phases c)
   && inv_b (c_cfg c) s
   && qapprox (r_time r) (o_time c) && Nat.eqb (r_events r) (o_events c).
+
+Definition check_fcase (f : fcase_t) : bool := check_case (of_fcase f).
 
 (* for debugging: which conjunct fails *)
 Definition diagnose (c : case_t) : list bool :=
@@ -77,12 +123,12 @@ Definition diagnose (c : case_t) : list bool :=
   let s := r_final r in
   let '(phis, w) := final_phases (c_cfg c) (clock s) (world s) in
   [ o_ok c; negb (r_stuck r); negb (pw_bad w);
-    Nat.eqb (length (pw_oracle w)) 0; Nat.eqb (length (pw_orders w)) 0;
+    Nat.eqb (List.length (pw_oracle w)) 0; Nat.eqb (List.length (pw_orders w)) 0;
     Nat.eqb (errors_of (r_out r)) 0;
     list_eqb arg_eqb (map (fun q => (rq_kind q, rq_arg q)) (rev (pw_reqs w))) (o_args c);
     list_eqb snap_eqb (queries_of (r_out r)) (o_snaps c);
     list_eqb tap_eqb (taps_of (r_out r)) (o_taps c);
-    Nat.eqb (all_taps (r_out r)) (length (o_taps c));
+    Nat.eqb (all_taps (r_out r)) (List.length (o_taps c));
     list_eqb qapprox (rev (pw_ftimes w)) (o_ftimes c);
     list_eqb Z.eqb (rev (pw_fnodes w)) (o_fnodes c);
     list_eqb Qeq_bool phis (o_phases c);
